@@ -9,6 +9,17 @@ Cookie: header of a new request -> Request.get_cookie:
   R1  get_cookie(name, default=ABSENT, secret=the same secret) returns a value equal to the one set (same
       type, same repr) - for every cookie of the response, with or without cookie attributes, also when
       several cookies travel in one header.
+  R0/R1 hold for "the request that returns it" whatever way the handler finishes after response.set_cookie (case
+      field `ending`, mode 'app'; absent = returns a str): the handler returns a str / bytes / '' / None / list /
+      generator, returns or raises an HTTPResponse (200, 201 + Location, 204, 303 + Location, 404), calls abort(402 /
+      404), raises HTTPError(500) or returns HTTPError(403).  The response the server gets must have the status the
+      handler chose (R0.set_failed otherwise: the experiment did not run) and carry one Set-Cookie per cookie set on
+      the application's response (R0.one_set_cookie_each); sent back in a second request they read back unchanged (R1).
+      (A handler that crashes with an ordinary exception is not generated: the statement does not say whether the
+      framework's own 500 keeps what the failed handler set.  NOT generated either: a returned / raised HTTPResponse
+      that carries a cookie of its own (r.set_cookie) in addition to the cookies set on the application's response -
+      on the unchanged tree HTTPResponse.apply then REPLACES the application response's cookie jar, so the cookies set
+      with response.set_cookie are lost; reported separately as an observation on the unchanged tree.)
   F0  (control of the forgery experiment) the unaltered signed value, delivered the way the forgery will be
       delivered (quoted / raw pair), reads back as the value that was set.
   F1  an altered value (single-character substitution / bit flip / case flip, deletion, insertion - of 'A', '=', '?',
@@ -35,17 +46,28 @@ import random
 from bounded.common import make_environ, serve, fail
 from spec import cookie_spec
 
+# how the handler finishes after response.set_cookie(...): name -> status the server must see
+ENDINGS = {'bytes': 200, 'empty': 200, 'none': 200, 'list': 200, 'gen': 200,
+           'ret:200': 200, 'ret:201': 201, 'ret:204': 204, 'ret:404': 404,
+           'raise:200': 200, 'raise:204': 204, 'raise:303': 303,
+           'abort:402': 402, 'abort:404': 404, 'error:500': 500, 'reterror:403': 403}
+END_TEXTS = ['abc', 'a b', 'a;b', 'saved; 2 items, "ok" \\o/', '\xe9', 'a"b', '!abc?def', 'a=b']
+
 BOUND = ('round trip: names {n, session_id, all RFC 6265 token punctuation, N} x unsigned text values (36: empty, separators '
          '; , = space, quotes, backslashes, octal look-alikes, control characters, Latin-1, BMP, astral, signed look-alike) '
          'and signed values (18: text, falsy values, bytes, nested containers, sets, stdlib objects) x secrets (6: ASCII, '
          'one letter, non-ASCII, separators, bytes) x attribute sets (4) x {through the application, response/request '
          'objects directly}; all singles, all ordered pairs of unsigned values and seeded random triples in one header. '
+         'Handler endings after set_cookie on the application response: %d endings (returned str/bytes/empty/None/list/'
+         'generator, returned and raised HTTPResponse with 200/201/204/303/404, abort(402/404), raised HTTPError(500), '
+         'returned HTTPError(403)) x {8 unsigned texts, 6 signed values x 2 secrets, plain+signed together with '
+         'attributes (2)}, read back from the Set-Cookie headers of that response in a second request. '
          'Forgery: for 3 (quick) / 42 (thorough) signed cookies, EVERY position of the signed value x {substitution by '
          '7 (quick) / 10 letters incl. non-base64 and non-ASCII, bit flip, case flip, deletion, truncation}, single-character '
          'INSERTION at every offset 0..len of {A, =, ?, the marker !, a copy of the character of the cookie at that offset '
          '(of the last one behind the end)}, every signature prefix, signature extensions, signature/payload swap with a second cookie, 6 '
          'other secrets, 9 attacker-built values (marker payload with original/empty/unkeyed/wrong-key signatures, every '
-         'signature prefix) x {quoted, raw} delivery; exhaustive over that space')
+         'signature prefix) x {quoted, raw} delivery; exhaustive over that space' % len(ENDINGS))
 NONTRIVIAL_RULE = 'distinct case dicts; every case sets at least one cookie and reads it back (rt) or alters a signed value (forge)'
 
 ABSENT = object()
@@ -174,6 +196,17 @@ def gen_cases(tier, seed):
             else:
                 cookies.append(_ck('c%d' % i, rnd.choice(SIGNED), rnd.choice(SECRETS), rnd.choice(list(OPTS))))
         yield dict(kind='rt', mode=rnd.choice(['app', 'direct']), cookies=cookies)
+    # ---- the handler finishes in other ways than returning a str (cookies were set on the application's response)
+    for ending in ENDINGS:
+        for v in END_TEXTS:
+            yield dict(kind='rt', mode='app', ending=ending, cookies=[_ck('flash', v, None, 'path')])
+        for v in SIGNED[:3] + SIGNED[7:10]:
+            for secret in SECRETS[:1] + SECRETS[2:3]:
+                yield dict(kind='rt', mode='app', ending=ending, cookies=[_ck('sid', v, secret, 'none')])
+        yield dict(kind='rt', mode='app', ending=ending,
+                   cookies=[_ck('flash', END_TEXTS[3], None, 'path'), _ck('sid', SIGNED[8], 'another-s3cret', 'many')])
+        yield dict(kind='rt', mode='app', ending=ending,
+                   cookies=[_ck('sid', SIGNED[0], 's3cret', 'exp'), _ck('a', 'abc'), _ck('b', 'a;b', None, 'many')])
     # ---- forgery
     targets = [('n', "lit:'text'", 's3cret'), ('session_id', "lit:[1, [2, (3, None)], {'k': {'n': [b'x', 'y']}}]", 'ключ€'),
                ('N', 'lit:0', b'\x00\xffkey')]
@@ -238,7 +271,42 @@ def _set_all(resp, cookies):
         resp.set_cookie(c['name'], val, secret=c['secret'], **OPTS[c['opts']])
 
 
-def _exchange(ombott, mode, cookies, header_fn, readers):
+def _gen(items):
+    for it in items:
+        yield it
+
+
+def _finish(ombott, ending):
+    """The way the handler ends after the cookies were set on the application's response."""
+    if ending is None:
+        return 'set'
+    if ending == 'bytes':
+        return b'set'
+    if ending == 'empty':
+        return ''
+    if ending == 'none':
+        return None
+    if ending == 'list':
+        return ['s', 'et']
+    if ending == 'gen':
+        return _gen(['s', 'et'])
+    how, _, code = ending.partition(':')
+    code = int(code)
+    kw = {'Location': 'http://localhost/item/1'} if code in (201, 303) else {}
+    if how == 'ret':
+        return ombott.HTTPResponse('' if code == 204 else 'returned', code, **kw)
+    if how == 'raise':
+        raise ombott.HTTPResponse('' if code == 204 else 'raised', code, **kw)
+    if how == 'abort':
+        ombott.abort(code, 'aborted')
+    if how == 'error':
+        raise ombott.HTTPError(code, 'an error')
+    if how == 'reterror':
+        return ombott.HTTPError(code, 'an error')
+    raise AssertionError(ending)
+
+
+def _exchange(ombott, mode, cookies, header_fn, readers, ending=None):
     """Set `cookies` on a response, turn the emitted Set-Cookie values into a Cookie header with
     header_fn(list of Set-Cookie values), read with readers = [(name, secret)].
     -> (set_cookie_values, results list | None, problem dict | None)"""
@@ -261,15 +329,16 @@ def _exchange(ombott, mode, cookies, header_fn, readers):
     @app.route('/s')
     def s():
         _set_all(app.response, cookies)
-        return 'set'
+        out['cookies_set'] = True
+        return _finish(ombott, ending)
 
     @app.route('/g')
     def g():
         out['got'] = [app.request.get_cookie(n, ABSENT, secret=s) for n, s in readers]
         return 'got'
     r1 = serve(app, make_environ('/s'))
-    if r1.code != 200 or r1.exc is not None:
-        return None, None, dict(stage='set', status=r1.status, errors=r1.errors[-300:])
+    if r1.code != ENDINGS.get(ending, 200) or r1.exc is not None or (ending is not None and 'cookies_set' not in out):
+        return None, None, dict(stage='set', status=r1.status, errors=r1.errors[-300:], ending=ending)
     scs = r1.header_all('Set-Cookie')
     r2 = serve(app, make_environ('/g', headers={'Cookie': header_fn(scs)}))
     if r2.code != 200 or r2.exc is not None or 'got' not in out:
@@ -280,10 +349,13 @@ def _exchange(ombott, mode, cookies, header_fn, readers):
 def _run_rt(ombott, case):
     cookies = case['cookies']
     readers = [(c['name'], c['secret']) for c in cookies]
-    scs, got, problem = _exchange(ombott, case['mode'], cookies, cookie_spec.browser_cookie_header, readers)
+    scs, got, problem = _exchange(ombott, case['mode'], cookies, cookie_spec.browser_cookie_header, readers,
+                                  ending=case.get('ending'))
     if problem and problem['stage'] == 'set':
         return fail('R0.set_failed', **problem)
     if len(scs) != len(cookies):
+        if case.get('ending'):
+            return fail('R0.one_set_cookie_each', set_cookie=scs, expected=len(cookies), ending=case['ending'])
         return fail('R0.one_set_cookie_each', set_cookie=scs, expected=len(cookies))
     if problem:
         return fail('R1.read_failed', set_cookie=scs, **problem)
